@@ -341,6 +341,18 @@ func runC12(c *Ctx) {
 			R.Ob("(*Conn).handleAuth/accept condition equals advertisement", c.P.InstrPos(site), strings.Join(got, "&&") == `(*Conn).authAllowed(param0) == true`, fmt.Sprintf("AUTH accepted under %v", got))
 		}
 	}
+	// the parameter gates compare the keyword with upper-case constants: every keyword parseArgs stores (with or
+	// without a value) is upper-cased, so "smtputf8" meets the same gate as "SMTPUTF8" (250 / 504, not 500)
+	if f := c.A.Func("parseArgs"); f != nil {
+		n := 0
+		allInstrs(f, func(in ssa.Instruction) {
+			if mu, ok := in.(*ssa.MapUpdate); ok && strings.HasPrefix(describe(mu.Map), "makemap") {
+				n++
+				R.Ob(c.siteKey(in, "parameter keyword reaches its gate upper-cased"), c.P.InstrPos(in), strings.HasPrefix(describe(mu.Key), "strings.ToUpper("), "parameter keyword stored as "+describe(mu.Key)+": spelled in lower case an enabled extension's parameter is refused as unknown and a disabled one is answered 500 instead of 504")
+			}
+		})
+		R.Ob("parseArgs/keyword stores found", c.P.Pos(f.Pos()), n >= 2, fmt.Sprintf("%d stores", n))
+	}
 }
 
 type paramGate struct {
